@@ -1,5 +1,6 @@
 """C09 - periodic services act once per interval (Engine S; R; virtual clock = sleep stub)."""
 import trio
+import trio.testing
 
 import cobald.composite.factory as factory_mod
 import cobald.controller.linear as linear_mod
@@ -50,7 +51,8 @@ STUBS = ["trio (as seen from each service module) -> sleep yields ('sleep', d) t
          "hash of threshold proxies enabled inside RangeSelector._compile_lookup"]
 ASSUMPTIONS = ["well-behaved pool: finite values, supply >= 0; interval/window > 0",
                "environment changes pool state only between steps (single trio thread)"]
-OUTSIDE = ["trio's real clock and scheduler", "time spent inside a regulation step", "IEEE rounding"]
+OUTSIDE = ["trio's wall clock (the real scheduler with a virtual clock is exercised on every witness)",
+           "time spent inside a regulation step", "IEEE rounding"]
 
 
 def BOUNDS(tier):
@@ -70,6 +72,40 @@ def _count(obj, name, log):
 def _sleep_ok(ctx, y, ival, tag):
     ctx.require(isinstance(y, tuple) and y[0] == "sleep", tag + "suspends only in sleep")
     ctx.require(y[1] == ival, tag + "sleeps exactly one interval")
+
+
+def _real_clock(ctx, svc, attrs, k, ival, first_at, what):
+    """witness replays only: the same service under the REAL trio scheduler with a virtual clock
+    (trio.testing.MockClock, autojump): the calls of `attrs` must happen at first_at, first_at + I, ..."""
+    if ctx.mode != "conc":
+        return
+
+    interval = float(ival)
+    times = []
+    for attr in attrs:
+        real = getattr(svc, attr)
+
+        def wrapper(*a, _real=real, **kw):
+            times.append(trio.current_time())
+            return _real(*a, **kw)
+
+        setattr(svc, attr, wrapper)
+    t0 = []
+
+    async def main():
+        t0.append(trio.current_time())
+        with trio.move_on_after((k - 0.5) * interval + (interval if first_at else 0)):
+            await svc.run()
+
+    try:
+        trio.run(main, clock=trio.testing.MockClock(autojump_threshold=0))
+    except Exception as e:
+        ctx.require_concrete(False, "real trio clock: %s runs without raising (%s)" % (what, type(e).__name__))
+        return
+    rel = [t - t0[0] for t in times]
+    want = [(j + (1 if first_at else 0)) * interval for j in range(k)]
+    ctx.require_concrete(len(rel) == k and all(abs(a - b) <= 1e-9 * max(1.0, b) for a, b in zip(rel, want)),
+                         "real trio clock: %s acts exactly once per interval" % what, detail={"times": rel, "want": want})
 
 
 def linear(ctx, k):
@@ -106,6 +142,10 @@ def linear(ctx, k):
             bound = rate * ((j - i) * ival + ival)
             ctx.require(And(d <= bound, -d <= bound),
                         "window %d..%d: |change| <= rate*(span + interval)" % (i, j))
+    if ctx.mode == "conc":
+        p2 = RecPool(demand=0.0, supply=1.0, utilisation=0.0, allocation=0.0)
+        _real_clock(ctx, LinearController(p2, low_utilisation=low, high_allocation=high, rate=rate, interval=float(ival)),
+                    ["regulate"], k, ival, False, "LinearController")
 
 
 def relative(ctx, k):
@@ -133,6 +173,11 @@ def relative(ctx, k):
         finally:
             coro.close()
     ctx.reach()
+    if ctx.mode == "conc":
+        p2 = RecPool(demand=0.0, supply=1.0, utilisation=0.0, allocation=0.0)
+        _real_clock(ctx, RelativeSupplyController(p2, low_utilisation=low, high_allocation=high, low_scale=ls,
+                                                  high_scale=hs, interval=float(ival)),
+                    ["regulate"], k, ival, False, "RelativeSupplyController")
 
 
 def stepwise(ctx, k, nrules=1):
@@ -194,6 +239,9 @@ def switch(ctx, k, nslaves=1):
         finally:
             coro.close()
     ctx.reach()
+    if ctx.mode == "conc":
+        p2 = RecPool(demand=0.0, supply=1.0)
+        _real_clock(ctx, DemandSwitch(p2, Slave("d"), interval=float(ival)), ["regulate"], k, ival, False, "DemandSwitch")
 
 
 def buffer(ctx, k):
@@ -229,6 +277,34 @@ def buffer(ctx, k):
         finally:
             coro.close()
     ctx.reach()
+    if ctx.mode == "conc":
+        w = float(window)
+        p2 = RecPool(demand=1.0)
+        seen = []
+        p2.on_write = lambda pool, v: seen.append((trio.current_time(), v))
+        b2 = Buffer(p2, window=w)
+
+        async def main():
+            t0 = trio.current_time()
+            async with trio.open_nursery() as n:
+                n.start_soon(b2.run)
+                await trio.sleep(0.3 * w)
+                b2.demand = 5.0
+                b2.demand = 6.0
+                await trio.sleep(1.4 * w)  # t = 1.7 w
+                b2.demand = 7.0
+                await trio.sleep(0.8 * w)  # t = 2.5 w
+                n.cancel_scope.cancel()
+            return t0
+
+        try:
+            t0 = trio.run(main, clock=trio.testing.MockClock(autojump_threshold=0))
+            rel = [(round((t - t0) / w, 6), v) for t, v in seen]
+            ctx.require_concrete(rel == [(1.0, 6.0), (2.0, 7.0)],
+                                 "real trio clock: Buffer forwards the latest value exactly at window boundaries",
+                                 detail={"writes": rel})
+        except Exception as e:
+            ctx.require_concrete(False, "real trio clock: Buffer runs without raising (%s)" % type(e).__name__)
 
 
 def factory(ctx, k, n0=1):
@@ -271,6 +347,17 @@ def factory(ctx, k, n0=1):
         finally:
             coro.close()
     ctx.reach()
+    if ctx.mode == "conc":
+        spawned = []
+
+        def make2():
+            c = RecPool(demand=1.0, supply=0.0)
+            spawned.append(c)
+            return c
+
+        f2 = FactoryPool(factory=make2, interval=float(ival))
+        f2.demand = 2.0
+        _real_clock(ctx, f2, ["_grow", "_shrink"], k, ival, True, "FactoryPool")
     _ = kids, made  # keep strong references: the mortuary is a WeakSet
 
 
